@@ -105,42 +105,56 @@ lemma('table_2_8_sane', lemma_table_sane, prop='C13', params=dict(i_io=IO, r_io=
 # L1c: both sides select the same model, with complementary roles.  Ghost driver: the initiator's session and
 # the responder's session each run the real decide_pairing_method on what the two exchange -- the initiator
 # on (AuthReq of the Pairing Response, own IO capability, IO capability of the response), the responder on
-# (AuthReq of the Pairing Request, IO capability of the request, own IO capability); the AuthReq octets are
-# produced by the real Session.auth_req property of the other side (keypress and ct2 are never set by Session:
-# __init__ sets both False and the handlers only AND them).
+# (AuthReq of the Pairing Request, IO capability of the request, own IO capability).  The AuthReq octets are any
+# octets whose MITM bit is the sender's flag: that is what the real Session.auth_req property produces (contract
+# below); the other bits are arbitrary.
 # ---------------------------------------------------------------------------
-model(
-    'bumble.smp:Session#two',
-    fields=dict(connection=Inst('ghost:Link'), mitm=Bool, sc=Bool, bonding=Bool, keypress=Const(False), ct2=Const(False), is_initiator=Bool,
-                pairing_method=IntRange(0, 4), passkey_display=Bool),
-)
-SESSION_TWO = Inst('bumble.smp:Session#two')
-
-
-def lemma_both_sides(si, sr, i_io, r_io):
-    si.decide_pairing_method(sr.auth_req, i_io, r_io)  # on_smp_pairing_response_command
-    sr.decide_pairing_method(si.auth_req, i_io, r_io)  # on_smp_pairing_request_command_async
-    assert si.pairing_method == sr.pairing_method
-    assert si.pairing_method == method_id(S.key_generation_method(i_io, r_io, si.sc, si.mitm, sr.mitm))
+def lemma_both_sides(si, sr, i_io, r_io, req_auth, rsp_auth):
+    si.decide_pairing_method(rsp_auth, i_io, r_io)  # on_smp_pairing_response_command
+    sr.decide_pairing_method(req_auth, i_io, r_io)  # on_smp_pairing_request_command_async
+    assert si.pairing_method == sr.pairing_method, 'same-method'
+    assert si.pairing_method == method_id(S.key_generation_method(i_io, r_io, si.sc, si.mitm, sr.mitm)), 'method-of-the-specification'
     if si.pairing_method == PM.PASSKEY:
         # complementary: exactly one displays and the other inputs, unless both only have keyboards (both input)
-        assert not (si.passkey_display and sr.passkey_display)
-        assert (si.passkey_display != sr.passkey_display) or (i_io == S.KEYBOARD_ONLY and r_io == S.KEYBOARD_ONLY)
-        assert implies(i_io == S.KEYBOARD_ONLY and r_io == S.KEYBOARD_ONLY, not si.passkey_display and not sr.passkey_display)
-        assert implies(si.passkey_display, S.can_display(i_io)) and implies(sr.passkey_display, S.can_display(r_io))
-        assert implies(not si.passkey_display, S.can_type(i_io)) and implies(not sr.passkey_display, S.can_type(r_io))
+        assert not (si.passkey_display and sr.passkey_display), 'never-both-display'
+        assert (si.passkey_display != sr.passkey_display) or (i_io == S.KEYBOARD_ONLY and r_io == S.KEYBOARD_ONLY), 'complementary-roles'
+        assert implies(i_io == S.KEYBOARD_ONLY and r_io == S.KEYBOARD_ONLY, not si.passkey_display and not sr.passkey_display), 'two-keyboards-both-input'
+        assert implies(si.passkey_display, S.can_display(i_io)) and implies(sr.passkey_display, S.can_display(r_io)), 'who-displays-can-display'
+        assert implies(not si.passkey_display, S.can_type(i_io)) and implies(not sr.passkey_display, S.can_type(r_io)), 'who-inputs-has-a-keyboard'
 
 
 lemma(
     'both_sides_same_model',
     lemma_both_sides,
     prop='C13',
-    params=dict(si=SESSION_TWO, sr=SESSION_TWO, i_io=IO, r_io=IO),
+    params=dict(si=SESSION_DPM, sr=SESSION_DPM, i_io=IO, r_io=IO, req_auth=IntRange(0, 255), rsp_auth=IntRange(0, 255)),
     # LE link; the Secure Connections flag is the negotiated one (each side: own flag AND the peer's AuthReq SC bit,
     # computed by the request/response handlers before decide_pairing_method is called)
-    requires=lambda si, sr: [si.is_initiator, not sr.is_initiator, si.sc == sr.sc,
-                             si.connection.transport == PhysicalTransport.LE, sr.connection.transport == PhysicalTransport.LE],
-    inline=['Session.decide_pairing_method', 'Session.auth_req', 'AuthReq.from_booleans'],
+    requires=lambda si, sr, req_auth, rsp_auth: [
+        si.is_initiator, not sr.is_initiator, si.sc == sr.sc,
+        si.connection.transport == PhysicalTransport.LE, sr.connection.transport == PhysicalTransport.LE,
+        peer_mitm(req_auth) == si.mitm, peer_mitm(rsp_auth) == sr.mitm,
+    ],
+    inline=['Session.decide_pairing_method'],
+)
+
+model('bumble.smp:Session#auth', fields=dict(bonding=Bool, sc=Bool, mitm=Bool, keypress=Bool, ct2=Bool))
+contract(
+    'bumble.smp:Session.auth_req',
+    prop='C13',
+    params=dict(self=Inst('bumble.smp:Session#auth')),
+    # Vol 3 Part H Figure 3.3: the AuthReq octet carries exactly the session's flags
+    ensures=lambda self, res: [
+        peer_mitm(res) == self.mitm,
+        ((res // S.AUTHREQ_SC) % 2 == 1) == self.sc,
+        (res % 4 == 1) == self.bonding and (res % 4 == 0) == (not self.bonding),
+        ((res // S.AUTHREQ_KEYPRESS) % 2 == 1) == self.keypress and ((res // S.AUTHREQ_CT2) % 2 == 1) == self.ct2,
+        0 <= res and res < 64,
+    ],
+    ensures_names=['mitm-bit', 'sc-bit', 'bonding-flags', 'keypress-ct2-bits', 'reserved-bits-clear'],
+    modifies=[],
+    inline=['AuthReq.from_booleans'],
+    returns=Int,
 )
 
 
@@ -296,6 +310,10 @@ contract(
     prop='C13',
     params=dict(self=SESSION_P),
     ghost=P_GHOST,
+    # two facts about how a Session is built, used to keep the case split small (not proved here, see NOTES):
+    # __init__ creates pairing_result exactly for the initiator; distribute_keys creates ctkd_task only on BR/EDR
+    requires=lambda self: [(self.pairing_result is not None) == self.is_initiator,
+                           self.ctkd_task is None or self.connection.transport == PhysicalTransport.BR_EDR],
     ensures=on_pairing_post,
     ensures_names=['completed', 'stored-once', 'no-failure-report', 'initiator-future-resolved', 'nothing-stored-again'] + STORED_NAMES,
     modifies=['self.completed', 'self.ctkd_task', 'ghost.stored', 'ghost.keys', 'ghost.address', 'ghost.result_done', 'ghost.result_ok'],
